@@ -337,8 +337,13 @@ def gen_cases(rng, tier):
                     cases.append(mk({'op': op, 'opds': [a]}))
                     if op in FAST and k == 'S':
                         b = G.rand_opd(rng, k, s, role)
-                        if rng.random() < 0.5:                      # inside the domain everywhere
+                        r = rng.random()
+                        if r < 0.35:                                # inside the domain everywhere
                             b['v8'] = [abs(x) % 8 + 1 for x in b['v8']]
+                        elif r < 0.75:                              # poles only underneath the mask: must not raise
+                            bad = {'div': 0, 'sqrt': -8, 'log': 0, 'asin': 16, 'exp': 6400}[role]
+                            bits = mask_bits(b['mask'], b['shape'])
+                            b['v8'] = [bad if m else abs(x) % 8 + 1 for x, m in zip(b['v8'], bits)]
                         cases.append(mk({'op': op, 'opds': [b], 'params': dict(FAST[op])}))
     for _ in range(reps):
         for sa, sb in G.SHAPE_PAIRS:
